@@ -6,7 +6,7 @@
    square root, Exponential with a non-constant rate, continuous draws inside a simultaneous
    assignment.  Tie: harness/pass_dist.py. *)
 From Coq Require Import List String QArith Qcanon ZArith Bool.
-From Polar Require Import Qcx Dist Syntax Sem Types PassGuard PassCNBase PassDist.
+From Polar Require Import Qcx Dist Syntax Sem Types PassGuard PassCNBase PassDist PassCNMatch.
 Import ListNotations.
 Open Scope string_scope.
 Local Open Scope Qc_scope.
